@@ -496,6 +496,7 @@ class TrainRun:
         self.monitor = plan.get("monitor", False)
         self.iter_k = None
         self.aborted = None
+        self.incomplete_last_iteration = False
         self.log_events = []
 
     def V(self, clause, detail, site=None):
@@ -667,6 +668,7 @@ class TrainRun:
             self.calls.append(rec)
             self.res.log.add("call", {k: v for k, v in rec.items() if k != "link"})
             if err is not None:
+                self.incomplete_last_iteration = True  # the routine stopped in the middle of an iteration
                 if isinstance(err, ValueError) and "No valid entry to sample" in str(err):
                     # the prioritised sub-trajectory buffer refuses to sample while every start is masked out
                     # (e.g. only truncated episodes shorter than the horizon so far): loud, not a violation
@@ -675,6 +677,7 @@ class TrainRun:
                 self.V(f"{self.prop}.raise", f"{type(err).__name__}: {err}")
                 break
             if self.aborted:
+                self.incomplete_last_iteration = True
                 break
             # resume with the counter the routine reported (that is what a user would do)
             gs = rec.get("returned_step") if rec.get("returned_step") is not None else gs + executed
